@@ -283,6 +283,25 @@ def base_axioms():
     # lists and small integers
     A(FA([l, x], app("py_len", la) == app("py_add", app("py_len", l), IntV(1)), app("py_len", la)))
     A(app("py_len", NIL_LIST) == IntV(0))
+    # strings: results of the string builders are strings; a string is truthy iff it is not the empty string ("" is StrC(0))
+    isstr = lambda t: pred("is_str", t)
+    for head, ar in (("py_str", 1), ("py_repr", 1), ("m_getText", 1), ("py_lower", 1), ("py_upper", 1), ("EXPR_TEXT", 1), ("json_dumps", 1),
+                     ("str_cat", 2), ("py_join", 2), ("py_replace", 3), ("re_sub", 3)):
+        vs = [x, y, z][:ar]
+        t = app(head, *vs)
+        A(FA(vs, isstr(t), t))
+    A(FA([i], isstr(StrV_(i)), StrV_(i)))
+    sl = app("py_slice", x, y, z, k)
+    A(FA([x, y, z, k], z3.Implies(isstr(x), isstr(sl)), sl))
+    A(FA([x], z3.Implies(isstr(x), truthy(x) == z3.Not(pred("py_eq", x, StrV_(z3.IntVal(0))))), isstr(x)))
+    # lists: a list's length is a non-negative integer and the list is truthy iff it is not zero (so `if l:` = `if len(l) > 0:` ...)
+    islist = lambda t: pred("is_list", t)
+    A(islist(NIL_LIST))
+    A(FA([l, x], islist(la) == islist(l), la))
+    lc = app("list_cat", l, x)
+    A(FA([l, x], islist(lc) == islist(l), lc))
+    ln = app("py_len", l)
+    A(FA([l], z3.Implies(islist(l), z3.And(ln == IntV(int_of(ln)), int_of(ln) >= 0, (int_of(ln) > 0) == truthy(l))), ln))
     A(FA([i, j], app("py_add", IntV(i), IntV(j)) == IntV(i + j), app("py_add", IntV(i), IntV(j))))
     A(FA([i, j], app("py_sub", IntV(i), IntV(j)) == IntV(i - j), app("py_sub", IntV(i), IntV(j))))
     for nm, rel in (("py_lt", lambda a, b: a < b), ("py_gt", lambda a, b: a > b), ("py_le", lambda a, b: a <= b), ("py_ge", lambda a, b: a >= b)):
